@@ -110,6 +110,7 @@ pub fn replay(w: &Value) -> Vec<(String, String)> {
     let run = Run::new("C02", Tier::Quick);
     let prev = RoundingMode::default();
     run.seq(|l| match w["k"].as_str().unwrap_or("") {
+        "seq" => crate::seq::replay_case(w, l),
         "dd" => {
             let mode = mode_from_name(w["mode"].as_str().unwrap()).unwrap();
             RoundingMode::set_default(mode);
@@ -212,6 +213,15 @@ pub fn run(tier: Tier) -> i32 {
         for a in xs { di_case(a, p, t, v, true, l); }
     });
     run.stage("integer operands", json!({"types":9,"operand_tuples":items.len()}));
+
+    // sequence exploration: chained operations from a seed set, results fed back as operands
+    {
+        let (d, cap) = if tier.thorough() { (3, 12000) } else { (2, 3000) };
+        let modes: Vec<RoundingMode> = if tier.thorough() { ALL_MODES.to_vec() } else { vec![ALL_MODES[5], ALL_MODES[3], ALL_MODES[0]] };
+        let (st, tr) = crate::seq::explore(&run, &[crate::seq::SOp::Mul], d, cap, &modes);
+        run.stage("sequence exploration (breadth-first over reachable Decimals)", json!({"depth": d, "states": st, "transitions": tr, "modes": modes.len()}));
+        run.set_extra("sequence_exploration", json!({"depth": d, "states": st, "transitions": tr, "seeds": crate::seq::seeds().len(), "state_cap_per_level": cap}));
+    }
 
     // required: rounded path: every mode x sign x rem class x {narrow, wide}; last digit 0/5 and others
     let mut required: Vec<Vec<u64>> = Vec::new();
